@@ -56,7 +56,9 @@ def gen_plan(rng, opts=None):
             for q in qs:
                 q.insert(-1, rng.choice([5000, 5000, 1, 3, 10]))
     lat_hi = rng.choice([50_000, 2_000_000, 40_000_000, 200_000_000]) if o["reorder"] else 50_000
-    return dict(jobs=jobs, fes=fes, lat_hi=lat_hi, timeouts=bool(o.get("short_timeouts")), dup=rng.choice([0, 0, 20, 50]) if o["dup"] else 0, uuid_collide=rng.random() < 0.3,
+    # a gateway that is busy / descheduled for a while (at its n-th seam): reports and requests pile up in its sockets meanwhile
+    stalls = [[rng.randint(5, 120), rng.choice([5, 50, 400])] for _ in range(rng.choice([0, 0, 1, 2]))]
+    return dict(gw_stall=stalls, jobs=jobs, fes=fes, lat_hi=lat_hi, timeouts=bool(o.get("short_timeouts")), dup=rng.choice([0, 0, 20, 50]) if o["dup"] else 0, uuid_collide=rng.random() < 0.3,
                 submit_by=[rng.randrange(nfe) for _ in range(njobs)])
 
 
@@ -125,6 +127,26 @@ def run(plan, ch, want_log=False):
         if any(not isinstance(c, (str, bytes)) for c in cmd):
             K.probe("popen_argument_not_a_string")
     K.handlers["popen"].append(on_popen)
+    stalls = [list(x) + [False] for x in plan.get("gw_stall", [])]
+
+    def seam_hook(thread, kind, args):
+        p = thread.proc
+        if p.name != "gw":
+            return
+        for st_ in stalls:
+            if not st_[2] and p.nseam >= st_[0]:
+                st_[2] = True
+                K.stall(p, st_[1] * 1_000_000)
+    if stalls:
+        K.seam_hooks.append(seam_hook)
+    delivered = collections.defaultdict(list)        # report address -> frames in the order the network handed them to the gateway's socket
+    orig_deliver = K.net._deliver
+
+    def deliver(addr, frames):
+        if addr in job_addrs:
+            delivered[addr].append(frames)
+        return orig_deliver(addr, frames)
+    K.net._deliver = deliver
 
     class St:  # the two fields Reporter.send_progress reads
         def __init__(self, pct):
@@ -288,6 +310,21 @@ def run(plan, ch, want_log=False):
                     ooo += 1
             for ds, val in rep.results:
                 m["results"][ds] = val
+    # ------------- nothing that reached a job's report socket is lost inside the gateway: what it processed is what was
+    # delivered, in that order, at least up to the job's shutdown notice (after which the socket is no longer polled)
+    if end == "quiescent":
+        for addr, dl in delivered.items():
+            got = [fr for seq, a, fr in K.net.recvlog if a == addr]
+            upto = len(dl)
+            for i, fr in enumerate(dl):
+                try:
+                    if deserialize(fr[0]).current_status == JobProgressShutdown:
+                        upto = i + 1
+                        break
+                except Exception:
+                    pass
+            if got != dl[:len(got)] or len(got) < upto:
+                viol.append(("C18", "report_delivered_to_gateway_never_processed", dict(addr=addr, delivered=len(dl), processed=len(got), must=upto)))
     for n_, e, tb in K.crashes:
         viol.append(("C18", "gateway_or_client_crashed", (n_, e)))
     if end != "quiescent":
